@@ -21,22 +21,6 @@ Theorem C08_doubled_frame_refuted : exists c w, c_err c = false /\ is_dup c w = 
   c_tc (step (step c w) w) <> tc_next (c_tc (step c w)).
 Proof. exists (ctx_init 0), 5152. vm_compute. repeat split; discriminate. Qed.
 
-(* (b) previous_word survives null padding: (R) 0000 (R) shows one character *)
-Definition w_padding : list string := [ln "00:00:10:00" "1420 142e 1470 1130 0000 1130 142f"].
-Theorem C08_previous_word_survives_padding_refuted :
-  model_vs_S dev0 0 0 w_padding <> None /\ model_vs_S (mkDev true false false false false false) 1 0 w_padding = None.
-Proof. decide_stream. Qed.
-(* ... and other-channel words: after RCL, a channel-2 RCL and RCL again, the second RCL is dropped as a copy and the
-   channel stays 2 (following characters are lost); the unconditional channel-filter equation fails *)
-Theorem C08_channel_filter_refuted : exists c b w, c_err c = false /\ (forall x, In x b -> is_dup c x = false) /\
-  block_ok (c_chan c) b = true /\ ch1_code w = true /\
-  fold_left step (b ++ [w]) c <> step (with_tc c (iter_n (length b) tc_next (c_tc c))) w.
-Proof.
-  exists (step (ctx_init 0) 5152), [7200], 5152. split; [reflexivity|]. split.
-  { intros x [<-|[]]. reflexivity. }
-  split; [reflexivity|]. split; [reflexivity|]. vm_compute. discriminate.
-Qed.
-
 (* (c) roll-up / paint-on text is shown from the code that opened its paragraph *)
 Definition w_late : list string := [ln "00:00:10:00" "1425 142d 1470 0000 0000 0000 0000 0000 0000 4142"].
 Theorem C08_text_shown_from_paragraph_begin_refuted : model_vs_S dev0 0 0 w_late <> None /\ model_vs_S dev0 2 0 w_late = None.
@@ -45,7 +29,7 @@ Proof. decide_stream. Qed.
 (* (d) roll-up base row forced to 15 *)
 Definition w_base : list string := [ln "00:00:10:00" "1425 142d 1670 4142"].
 Theorem C08_rollup_base_row_forced_15_refuted :
-  model_vs_S dev0 2 0 w_base <> None /\ model_vs_S (mkDev false true false false false false) 2 0 w_base = None.
+  model_vs_S dev0 2 0 w_base <> None /\ model_vs_S (mkDev true false false) 2 0 w_base = None.
 Proof. decide_stream. Qed.
 
 (* (e) paint-on paragraph attached to a region that starts above it *)
@@ -54,27 +38,10 @@ Theorem C08_region_above_attached_refuted : model_vs_S dev0 2 1 w_above <> None 
   region_above (run_lines 0 (map text_of_string w_above)) = true.
 Proof. vm_compute. split; [discriminate|split; reflexivity]. Qed.
 
-(* mid-row italics resets the colour *)
-Definition w_italics : list string := [ln "00:00:10:00" "1420 142e 1462 4142 112e 4344 142f"].
-Theorem C08_midrow_italics_resets_colour_refuted :
-  model_vs_S dev0 0 0 w_italics <> None /\ model_vs_S (mkDev false false true false false false) 0 0 w_italics = None.
-Proof. decide_stream. Qed.
-
 (* paint-on PAC erases the row it addresses *)
 Definition w_clears : list string := [ln "00:00:10:00" "1429 1550 4142 4344 4546 1556 5859"].
 Theorem C08_painton_pac_clears_row_refuted :
-  model_vs_S dev0 2 2 w_clears <> None /\ model_vs_S (mkDev false false false true false false) 0 0 w_clears = None.
-Proof. decide_stream. Qed.
-
-(* DER is ignored *)
-Definition w_der : list string := [ln "00:00:10:00" "1420 142e 1550 4142 4344 4546 4748 1552 1424 142f"].
-Theorem C08_der_ignored_refuted :
-  model_vs_S dev0 2 2 w_der <> None /\ model_vs_S (mkDev false false false false true false) 0 0 w_der = None.
-Proof. decide_stream. Qed.
-
-(* paint-on: a pair of characters ending in a space right after a PAC stays unstyled *)
-Definition w_space : list string := [ln "00:00:10:00" "1429 1548 6120 6263"].
-Theorem C08_painton_space_word_unstyled_refuted : model_vs_S dev0 2 0 w_space <> None /\ model_vs_S dev0 0 1 w_space = None.
+  model_vs_S dev0 2 2 w_clears <> None /\ model_vs_S (mkDev false true false) 0 0 w_clears = None.
 Proof. decide_stream. Qed.
 
 (* characters written over a row take the attributes of the text element they land in *)
@@ -82,14 +49,16 @@ Definition w_over : list string := [ln "00:00:10:00" "1420 142e 1542 4142 4344 1
 Theorem C08_overwrite_keeps_element_style_refuted : model_vs_S dev0 2 0 w_over <> None /\ model_vs_S dev0 0 1 w_over = None.
 Proof. decide_stream. Qed.
 
+(* ... also without any overwriting: a PAC that puts the cursor directly behind the text of its row continues the text element,
+   which keeps its colour (the indent PAC carries none) *)
+Definition w_over2 : list string := [ln "00:00:10:00" "1420 142e 1542 4142 4344 1552 4546 142f"].
+Theorem C08_overwrite_keeps_element_style_2_refuted : model_vs_S dev0 2 0 w_over2 <> None /\ model_vs_S dev0 0 1 w_over2 = None /\
+  Z.land (triggers (slines_of w_over2)) tOVER <> 0.
+Proof. vm_compute. split; [discriminate|split; [reflexivity|discriminate]]. Qed.
+
 (* colour PAC on a row that already holds text further right: the characters are shuffled *)
 Definition w_left : list string := [ln "00:00:10:00" "1420 142e 1554 4142 4344 1546 5758 595a 142f"].
 Theorem C08_pac_left_of_row_content_refuted : model_vs_S dev0 2 2 w_left <> None /\ model_vs_S dev_all 2 2 w_left <> None.
-Proof. vm_compute. split; discriminate. Qed.
-
-(* PAC beyond the end of the text of its row: the gap is lost *)
-Definition w_right : list string := [ln "00:00:10:00" "1420 142e 1550 4142 1554 4344 142f"].
-Theorem C08_pac_right_of_row_content_refuted : model_vs_S dev0 2 2 w_right <> None /\ model_vs_S dev_all 2 2 w_right <> None.
 Proof. vm_compute. split; discriminate. Qed.
 
 (* roll-up text after EDM without PAC / RUx is put on row 0 and lost at the next CR *)
@@ -101,26 +70,24 @@ Proof. vm_compute. split; discriminate. Qed.
 (* a carriage return in pop-on mode erases the displayed caption *)
 Definition w_cr : list string := [ln "00:00:10:00" "1420 142e 1470 4142 142f"; ln "00:00:13:10" "142d"].
 Theorem C08_cr_erases_non_rollup_caption_refuted :
-  model_vs_S dev0 2 2 w_cr <> None /\ model_vs_S (mkDev false false false false false true) 0 0 w_cr = None.
+  model_vs_S dev0 2 2 w_cr <> None /\ model_vs_S (mkDev false false true) 0 0 w_cr = None.
 Proof. decide_stream. Qed.
 
 (* the triggers of Spec/Cea608Screen.v fire on their witnesses *)
 Theorem C08_triggers_fire :
-  Z.land (triggers (slines_of w_doubled)) tDUP <> 0 /\ Z.land (triggers (slines_of w_padding)) tPADDUP <> 0 /\
+  Z.land (triggers (slines_of w_doubled)) tDUP <> 0 /\
   Z.land (triggers (slines_of w_late)) tLATE <> 0 /\ Z.land (triggers (slines_of w_base)) tBASE <> 0 /\
-  Z.land (triggers (slines_of w_italics)) tITAL <> 0 /\ Z.land (triggers (slines_of w_clears)) tCLEAR <> 0 /\
-  Z.land (triggers (slines_of w_der)) tDER <> 0 /\ Z.land (triggers (slines_of w_space)) tSPACE <> 0 /\
+  Z.land (triggers (slines_of w_clears)) tCLEAR <> 0 /\
   Z.land (triggers (slines_of w_over)) tOVER <> 0 /\ Z.land (triggers (slines_of w_left)) tNEGCUR <> 0 /\
-  Z.land (triggers (slines_of w_right)) tCLAMP <> 0 /\ Z.land (triggers (slines_of w_row0)) tROW0 <> 0 /\
+  Z.land (triggers (slines_of w_row0)) tROW0 <> 0 /\
   Z.land (triggers (slines_of w_cr)) tCR <> 0.
 Proof. vm_compute. repeat split; discriminate. Qed.
 
 Print Assumptions C08_doubled_code_no_frame_refuted.  Print Assumptions C08_doubled_frame_refuted.
-Print Assumptions C08_previous_word_survives_padding_refuted.  Print Assumptions C08_channel_filter_refuted.
 Print Assumptions C08_text_shown_from_paragraph_begin_refuted.  Print Assumptions C08_rollup_base_row_forced_15_refuted.
-Print Assumptions C08_region_above_attached_refuted.  Print Assumptions C08_midrow_italics_resets_colour_refuted.
-Print Assumptions C08_painton_pac_clears_row_refuted.  Print Assumptions C08_der_ignored_refuted.
-Print Assumptions C08_painton_space_word_unstyled_refuted.  Print Assumptions C08_overwrite_keeps_element_style_refuted.
-Print Assumptions C08_pac_left_of_row_content_refuted.  Print Assumptions C08_pac_right_of_row_content_refuted.
+Print Assumptions C08_region_above_attached_refuted.
+Print Assumptions C08_painton_pac_clears_row_refuted.
+Print Assumptions C08_overwrite_keeps_element_style_refuted.  Print Assumptions C08_overwrite_keeps_element_style_2_refuted.
+Print Assumptions C08_pac_left_of_row_content_refuted.
 Print Assumptions C08_rollup_text_after_edm_row0_refuted.  Print Assumptions C08_cr_erases_non_rollup_caption_refuted.
 Print Assumptions C08_triggers_fire.
